@@ -42,8 +42,8 @@ RULE = ('one run = one seeded interleaving of commits, packs, clock steps '
         '(quick and full) and content change (full); one evaluation = one '
         'backup, recover or verify; non-trivial = >= 2 backups; distinct = '
         '(options, op trace)')
-BUDGET = {'quick': {'runs': 480, 'wall': 300, 'chunk': 5},
-          'thorough': {'runs': 12000, 'wall': 3000, 'chunk': 10}}
+BUDGET = {'quick': {'runs': 3000, 'wall': 300, 'chunk': 5},
+          'thorough': {'runs': 300000, 'wall': 1800, 'chunk': 50}}
 ASSUMPTIONS = [
     'quick mode is specified to trust sizes (and the checksum of the last '
     'increment) only',
